@@ -52,7 +52,8 @@ def constant_types():
     return out
 
 
-STRINGS = [("''", ""), ("'a'", "a"), ('"z"', "z"), ("'ab'", "ab"), ("'é'", "é"), ("'\\u0000'", "\x00"), ("'\\u007f'", "\x7f"), ("'\\u0080'", "\x80"), ("'\\n'", "\n"), ("'€'", "€"), ("'\\ud800'", "\ud800"), ("'\\U0010ffff'", "\U0010ffff")]
+STRINGS = [("''", ""), ("'a'", "a"), ('"z"', "z"), ("'ab'", "ab"), ("'é'", "é"), ("'\\u0000'", "\x00"), ("'\\u007f'", "\x7f"), ("'\\u0080'", "\x80"), ("'\\n'", "\n"), ("'€'", "€"), ("'\\ud800'", "\ud800"), ("'\\U0010ffff'", "\U0010ffff"),
+           ("'a\u00e9'", "a\u00e9"), ("'\u00e9a'", "\u00e9a"), ("'\u00e9a\u20ac'", "\u00e9a\u20ac"), ("'a\\u00e9'", "a\u00e9"), ("' '", " "), ("'\\t'", "\t"), ("'~'", "~"), ("'aa'", "aa")]
 
 
 def initializers(desc):
